@@ -64,12 +64,23 @@ type Rec struct {
 	Skip   bool              `json:"skip"`
 }
 
-func run(id int, role string, g, m, buf, procs int, seed int64) *Rec {
+func run(id int, role string, g, m, buf, procs int, seed int64, reuse bool) *Rec {
 	runtime.GOMAXPROCS(procs)
+	if reuse { // few senders, a buffer that can back up
+		if buf == 0 {
+			buf = 10
+		}
+		if g > 8 {
+			g, m = 2, 60
+		}
+	}
 	rec := &Rec{ID: id, Mode: "stress", Skip: true, Oracle: map[string]string{},
-		Case: fmt.Sprintf("role=%s goroutines=%d sends=%d buf=%d gomaxprocs=%d seed=%d", role, g, m, buf, procs, seed),
-		Tags: []string{"role=" + role, fmt.Sprintf("G=%d", g), fmt.Sprintf("buf=%d", buf), fmt.Sprintf("procs=%d", procs)}}
+		Case: fmt.Sprintf("role=%s goroutines=%d sends=%d buf=%d gomaxprocs=%d seed=%d reuse=%v", role, g, m, buf, procs, seed, reuse),
+		Tags: []string{"role=" + role, fmt.Sprintf("G=%d", g), fmt.Sprintf("buf=%d", buf), fmt.Sprintf("procs=%d", procs), fmt.Sprintf("reuse=%v", reuse)}}
 	st := &slowStore{Storage: memory.NewStorage(), rnd: rand.New(rand.NewSource(seed)), max: 400}
+	if reuse {
+		st.max = 0
+	}
 	l, err := live.Start(live.Config{Role: role, Hb: 1, Buf: buf, Counter: st, Messages: st})
 	if err != nil {
 		rec.Impl = "setup failed: " + err.Error()
@@ -82,14 +93,27 @@ func run(id int, role string, g, m, buf, procs int, seed int64) *Rec {
 		rec.Oracle["C05"] = "fail: logon exchange did not complete"
 		return rec
 	}
-	l.H.HandleOutgoing(simplefixgo.AllMsgTypes, func(simplefixgo.SendingMessage) bool { st.nap(); return true })
+	if reuse {
+		l.SlowReads(300 * time.Microsecond) // the outbound buffer backs up while the senders go on
+	} else {
+		l.H.HandleOutgoing(simplefixgo.AllMsgTypes, func(simplefixgo.SendingMessage) bool { st.nap(); return true })
+	}
 	var wg sync.WaitGroup
 	for k := 0; k < g; k++ {
 		wg.Add(1)
 		go func(k int) {
 			defer wg.Done()
+			// reuse: the goroutine sends one message object again and again (as applications that
+			// keep a snapshot message do); what was queued earlier must not change under it
+			var kept *fixgen.MarketDataRequestReject
 			for i := 0; i < m; i++ {
-				msg := fixgen.NewMarketDataRequestReject()
+				msg := kept
+				if msg == nil {
+					msg = fixgen.NewMarketDataRequestReject()
+					if reuse {
+						kept = msg
+					}
+				}
 				msg.SetMDReqID("g" + strconv.Itoa(k) + "-" + strconv.Itoa(i))
 				_ = l.Sess.Send(msg)
 			}
@@ -101,7 +125,7 @@ func run(id int, role string, g, m, buf, procs int, seed int64) *Rec {
 		defer close(done)
 		for i := 0; i < 30; i++ {
 			_ = l.Send(l.PeerMsg("1", "112=probe"+strconv.Itoa(i)+"\x01"))
-			if i%7 == 3 {
+			if i%7 == 3 && !reuse { // a reused object is stored under several numbers: its retransmission is the application's business
 				_ = l.Send(l.PeerMsg("2", "7=2\x0116=4\x01"))
 			}
 			time.Sleep(time.Duration(2+i%5) * time.Millisecond)
@@ -169,7 +193,7 @@ func main() {
 		if m > 60 {
 			m = 60
 		}
-		r := run(i, role, g, m, bufs[(i/3)%3], procs[i%3], *seed*1000+int64(i))
+		r := run(i, role, g, m, bufs[(i/3)%3], procs[i%3], *seed*1000+int64(i), i%3 == 1)
 		b, _ := json.Marshal(r)
 		out.Write(b)
 		out.WriteByte('\n')
